@@ -391,7 +391,11 @@ impl Leg for Long {
     fn strategy(tier: Tier) -> BoxedStrategy<LongCase> {
         let hi = tier.pick(70_000, 1_200_000);
         (prop_oneof![3 => gen::giant(8_000, hi, b"ACGTUacgtu".to_vec()), 1 => gen::giant_random(8_000, hi, b"ACGTU".to_vec())], gen::square_strategy(), any::<bool>())
-            .prop_map(|(giant, s, python)| LongCase { python: python && giant.rand_seed.is_none(), giant, s })
+            .prop_map(|(mut giant, s, python)| {
+                // nucleotides only: no stretches of N here
+                giant.gaps.clear();
+                LongCase { python: python && giant.rand_seed.is_none(), giant, s }
+            })
             .boxed()
     }
     fn check(c: &LongCase) -> Verdict {
